@@ -209,6 +209,7 @@ func (n *SimNode) submit(b *BlockRec) {
 //
 //go:norace
 func (n *SimNode) Attach(b *BlockRec) {
+	Progress.Add(1) // harness work without scheduler steps (pre-mining) is progress too
 	n.mu.Lock()
 	defer n.mu.Unlock()
 	tip := n.best[len(n.best)-1]
